@@ -102,7 +102,41 @@ def fresh_diagnostics(doc, text):
     return _FRESH[key]
 
 
-def run_trace(trace):
+SESSION_POSITIONS = [(0, 0), (0, 5), (1, 9), (50, 0)]
+
+
+def session_requests(c, model, step_no):
+    """After a notification: hover / definition / completion at four positions and semanticTokens
+    for every document of the workspace (open or not) and for a uri the server never heard of.
+    Every request must be answered; for an open document with a result and ranges inside its
+    current text. -> (violations, number of requests)"""
+    viol = []
+    ids = {}
+    for doc in ("a.ucg", "lib.ucg", "never-seen.ucg"):
+        uri = c.uri(doc)
+        for (line, ch) in SESSION_POSITIONS:
+            tdp = {"textDocument": {"uri": uri}, "position": {"line": line, "character": ch}}
+            for kind in ("hover", "definition", "completion"):
+                ids[c.send_request("textDocument/" + kind, tdp)] = (kind, doc, line, ch)
+        ids[c.send_request("textDocument/semanticTokens/full", {"textDocument": {"uri": uri}})] = ("semanticTokens", doc, 0, 0)
+    answers = c.wait_for(list(ids))
+    for i, (kind, doc, line, ch) in ids.items():
+        m = answers.get(i)
+        state = "open" if doc in model else ("closed-or-never-opened" if doc != "never-seen.ucg" else "unknown-uri")
+        if m is None:
+            viol.append(("request-not-answered:%s:%s-document" % (kind, state), {"doc": doc, "position": [line, ch], "after_step": step_no}))
+            break
+        if doc in model:
+            if "error" in m:
+                viol.append(("request-error:%s:open-document" % kind, {"doc": doc, "position": [line, ch], "error": m["error"], "after_step": step_no}))
+            elif kind == "hover" and m.get("result") and m["result"].get("range"):
+                bad = range_ok(m["result"]["range"], TEXTS[model[doc]])
+                if bad:
+                    viol.append(("range-outside-document:hover:in-session", {"doc": doc, "text": model[doc], "position": [line, ch], "why": bad, "after_step": step_no}))
+    return viol, len(ids)
+
+
+def run_trace(trace, with_requests=True):
     """trace: list of ("open"|"change", doc, text-name) | ("close", doc). -> (violations, steps_done)"""
     d = make_ws()
     viol = []
@@ -118,6 +152,10 @@ def run_trace(trace):
                     (c.open if step[0] == "open" else c.change)(step[1], TEXTS[step[2]])
                     model[step[1]] = step[2]
                 c.sync()
+                if with_requests and len(trace) <= 2 and all(st[1] in ("a.ucg", "lib.ucg") for st in trace):
+                    v, n = session_requests(c, model, trace.index(step))
+                    viol.extend(v)
+                    REQUESTS_SENT[0] += n
             last = c.last_diagnostics()
             for doc, tname in model.items():
                 got = norm_diags(last.get(c.uri(doc)))
@@ -162,16 +200,22 @@ def abstract_trace(trace, detail):
     return " ".join(parts)
 
 
+REQUESTS_SENT = [0]
+
+
 def work_traces(chunk):
     hist = {}
     viol = []
+    REQUESTS_SENT[0] = 0
     for trace in chunk:
         v = run_trace(trace)
         k = "trace%d:%s" % (len(trace), "agrees" if not v else "VIOLATION:" + v[0][0])
         hist[k] = hist.get(k, 0) + 1
         for kind, det in v:
             viol.append((kind, trace, det))
-    return {"evals": len(chunk), "hist": hist, "viol": viol, "transitions": sum(len(t) for t in chunk)}
+    if REQUESTS_SENT[0]:
+        hist["requests-in-session"] = REQUESTS_SENT[0]
+    return {"evals": len(chunk) + REQUESTS_SENT[0], "hist": hist, "viol": viol, "transitions": sum(len(t) for t in chunk)}
 
 
 # -- requests ----------------------------------------------------------------------------------
@@ -482,7 +526,9 @@ def run(ctx):
     ctx.bounds = {"documents": 2, "texts": len(TEXTS), "alphabet": len(full), "sequence_length": 4 if thorough else 3, "traces": len(traces)}
     ctx.rule = ("all sequences of 1..2 notifications over the full alphabet (2 documents x {open, change} x 5 texts + close = %d messages), all of "
                 "length 3 over %s and, thorough, length 4 over the 3-text alphabet, legal and protocol-violating ones alike, each replayed "
-                "against its own `ucg lsp` process with a barrier request after every message; afterwards the last diagnostics of every open "
+                "against its own `ucg lsp` process with a barrier request after every message (in the sessions of <= 2 messages also hover / "
+                "definition / completion at 4 positions and semanticTokens for every workspace document, open or not, and for an unknown "
+                "uri, after every message: all answered, open documents without error and in range); afterwards the last diagnostics of every open "
                 "document are compared with a fresh server. For each of %d texts opened alone: hover, definition and completion at every token "
                 "start, inside every token, at every line end and beyond the text, semanticTokens/full and 4 workspace/symbol queries: all "
                 "answered, all ranges inside their document; syntax diagnostics compared with ucglib's parser, buildable texts with the "
